@@ -429,11 +429,17 @@ def main(tier, seed):
     log('hash seeds, pristine')
     # ---- hash seeds, pristine
     quick = tier != 'thorough'
+    # development aid (never set by ./check): C20_SKIP=seeds,cwd,chainrandom,batch,fresh,model,pieces
+    SKIP = set(x for x in os.environ.get('C20_SKIP', '').split(',') if x)
+    if SKIP or os.environ.get('C20_LIMIT') or os.environ.get('C20_ONLY'):
+        ctx.extra['dev_mode'] = {'skipped_suites': sorted(SKIP), 'limit': os.environ.get('C20_LIMIT'),
+                                 'only': os.environ.get('C20_ONLY')}
+        print('C20: DEVELOPMENT MODE - reduced run, not a full check', file=sys.stderr)
 
     def subset(j, m):
         """thorough: every target; quick: the targets with index = j mod m"""
         return [ti for ti in range(NT) if (not quick) or ti % m == j % m]
-    for j, s in enumerate(seeds):
+    for j, s in enumerate(seeds if 'seeds' not in SKIP else []):
         sel = list(range(NT)) if j == 0 else subset(j, 3)
         cases = [{'t': pub(targets[ti]), 'ref': refs[ti]['digest']} for ti in sel]
         ans = run_env('pristine', cases, hashseed=s)
@@ -449,7 +455,7 @@ def main(tier, seed):
 
     log('other working directory')
     # ---- other working directory
-    sel = subset(0, 3)
+    sel = subset(0, 3) if 'cwd' not in SKIP else []
     cases = [{'t': pub(targets[ti]), 'ref': refs[ti]['digest']} for ti in sel]
     ans = run_env('pristine', cases, hashseed='0', cwd=SCRATCH)
     for ti, a in zip(sel, ans):
@@ -487,8 +493,9 @@ def main(tier, seed):
                 S.judge('chain', 'history' if hs == '0' else 'history+hashseed=random', ti, targets[ti], a, env_b)
         ctx.count(f'chain(hashseed={hs})', NT, ())
         ctx.bump(f'chain-max-history-length(hashseed={hs})', maxk)
-    judge_chain(run_env('isolated', [{'fn': 'sequence', 'case': c} for c in chain_cases], hashseed='random',
-                        par=nseq), 'random')
+    if 'chainrandom' not in SKIP:
+        judge_chain(run_env('isolated', [{'fn': 'sequence', 'case': c} for c in chain_cases], hashseed='random',
+                            par=nseq), 'random')
     batch = [{'fn': 'sequence', 'case': c} for c in chain_cases]      # hash seed 0: see the batch below
     slices = {'chain': (0, len(batch))}
     ctx.rule.append(f'chain: all targets in a VERIF_SEED-shuffled order, split over {nseq} processes, each process '
@@ -587,7 +594,7 @@ def main(tier, seed):
                     {'fn': 'detfn.pristine', 'hashseed': '0', 'cwd': vlib.REPO, 'case': c})
         ctx.count('later', len(later_pick), ())
     nfr = 8 if tier == 'quick' else 64
-    pick = sorted(ctx.rng.sample(range(NT), min(nfr, NT)))
+    pick = sorted(ctx.rng.sample(range(NT), min(nfr, NT))) if 'fresh' not in SKIP else []
 
     def one_fresh(ti):
         return vlib.run_impl('detfn.fresh', [{'t': pub(targets[ti]), 'ref': refs[ti]['digest']}],
@@ -620,16 +627,21 @@ def main(tier, seed):
         slices['mthread'] = (len(batch), len(batch) + 1)
         batch.append({'fn': 'machine_in_thread', 'case': {'bytes': refs[mt[0]]['_bytes']}})
     log(f'seed-0 batch: {len(batch)} isolated cases')
+    if 'batch' in SKIP:
+        batch = []
+        slices = {k: (0, 0) for k in slices}
+        mt = []
     bout = run_env('isolated', batch, hashseed='0')
 
     def bpart(name):
         a, b = slices[name]
         return bout[a:b]
-    judge_chain(bpart('chain'), '0')
-    judge_history(bpart('history'))
-    judge_two(bpart('two'))
-    judge_thread(bpart('thread'))
-    judge_later(bpart('later'))
+    if 'batch' not in SKIP:
+        judge_chain(bpart('chain'), '0')
+        judge_history(bpart('history'))
+        judge_two(bpart('two'))
+        judge_thread(bpart('thread'))
+        judge_later(bpart('later'))
     outs = bpart('machines')
     sig_changes = 0
     for ti, c, o in zip(mt, cases, outs):
@@ -667,13 +679,13 @@ def main(tier, seed):
                     'with a second machine on the same QModule object (one tick ahead), and alone again: 7 runs that '
                     'must all equal the reference run; the partner machine must equal its own solitary run; '
                     'class-level mutable attributes of the qvm classes are compared before/after')
-    if mt:
+    if mt and bpart('mthread'):
         ctx.extra['machine_constructed_off_main_thread'] = bpart('mthread')[0]
 
     log('the model (about which run_deterministic is proved) on the same modules')
     # ---- the model (about which run_deterministic is proved) on the same modules
     jobs, idx = [], []
-    for ti in ok_targets:
+    for ti in (ok_targets if 'model' not in SKIP else []):
         t = targets[ti]
         jobs.append([2, isa.module_sx(refs[ti]['_module']), isa.script_sx(t['script']), t['max_ticks']])
         idx.append(ti)
@@ -705,7 +717,8 @@ def main(tier, seed):
 
     log('compiler-side pieces')
     # ---- compiler-side pieces
-    pieces_suite(ctx, exe_d, gens, labs, ['0'] + seeds[:2] + [seeds[-1]], tier)
+    if 'pieces' not in SKIP:
+        pieces_suite(ctx, exe_d, gens, labs, ['0'] + seeds[:2] + [seeds[-1]], tier)
 
     t = targets[len(targets) // 2]
     ctx.sample({'suite': 'reference', 'tag': t['tag'], 'digest': refs[len(targets) // 2]['digest'],
